@@ -129,12 +129,17 @@ def check_kv(case):
 
 def hrows(tier):
     R = []
-    def add(name, k, L, p, disp):
-        R.append({"row": name, "k": list(k), "L": L, "p": list(p), "disparity": disp, "mark_truncate": False, "maxmark": None})
+    def add(name, k, L, p, disp, tmark=False):
+        R.append({"row": name, "k": list(k), "L": L, "p": list(p), "disparity": disp, "mark_truncate": tmark, "maxmark": None})
+    if tier != "quick":
+        add("1D-k2-L3", (2,), 3, (3,), 1, tmark=True)
+        add("2D-2x1-L2", (2, 1), 2, (2, 2), 1, tmark=True)
     if tier == "quick":
         add("1D-k3-L2", (3,), 2, (2,), "inf")
         add("1D-k2-L3", (2,), 3, (2,), "inf")
         add("1D-k2-L3", (2,), 3, (1,), 1)
+        # THB-admissible marking (refine(..., truncate=True)): HB functions interact beyond the disparity
+        add("1D-k2-L3", (2,), 3, (2,), 1, tmark=True)
         add("2D-2x1-L2", (2, 1), 2, (2, 1), "inf")
     else:
         for p in (1, 2, 3):
@@ -470,12 +475,13 @@ def run(ctx):
         else:
             if case["history"]:
                 out.nontrivial.add((case["part"], case["cfg"]["row"], tuple(case["cfg"]["p"]), str(case["cfg"]["disparity"]),
-                                    repr(case["history"]), repr(case.get("extra"))))
+                                    bool(case["cfg"].get("mark_truncate")), repr(case["history"]), repr(case.get("extra"))))
         out.outcomes.add((case["part"], len(probs)))
         for key, msg in probs:
             label = {k: v for k, v in case.items() if k != "cfg"}
             if "cfg" in case:
-                label["row"] = "%s p=%s disp=%s" % (case["cfg"]["row"], case["cfg"]["p"], case["cfg"]["disparity"])
+                label["row"] = "%s p=%s disp=%s%s" % (case["cfg"]["row"], case["cfg"]["p"], case["cfg"]["disparity"],
+                                                       " refine(truncate=True)" if case["cfg"].get("mark_truncate") else "")
             out.add_violation(key, "%s: %s" % (label, msg), case)
     out.evaluations = out.transitions
     out.sample(cases[0]); out.sample(cases[nkv]); out.sample(cases[-1])
